@@ -86,7 +86,7 @@ theorem parseProgram_invalid {src : Name} {e : Exc} (h : X.parse src = .error e)
   unfold parseProgram; rw [h]; simp [hc]
 
 theorem parseProgram_empty {src : Name} {t : Tree} (h : X.parse src = .ok t)
-    (he : X.isEmpty t = true) : parseProgram X src = .ok [emptyLabel] := by
+    (he : X.isEmpty t = true) : parseProgram X src = .ok [emptyLabel src] := by
   unfold parseProgram; rw [h]; simp [he]
 
 /-! ## Decomposition of `collect` -/
